@@ -58,12 +58,12 @@ def find(fn, m, live_only=True):
     return [e for b, i, e, n in fn.events(live_only) if node_matches(fn, e, m)]
 
 
-def strip_cond(fn, nid):
-    a, p, r = strip_cond2(fn, nid)
+def strip_cond(fn, nid, follow=True):
+    a, p, r = strip_cond2(fn, nid, follow)
     return a, p
 
 
-def strip_cond2(fn, nid):
+def strip_cond2(fn, nid, follow=True):
     """look through !, bool casts, __builtin_expect, comparisons with true/false/0; returns (atom id, polarity, restrict) where restrict says
     which outcome of the ORIGINAL condition determines the atom: for `a || b` the block that carries the whole condition may be entered from the
     short-circuit edge, so only its false edge determines b (b false); for `a && b` only its true edge does (b true)."""
@@ -107,12 +107,12 @@ def strip_cond2(fn, nid):
             else:
                 break
             continue
-        if k == "ref" and n.get("dk") == "local":
+        if k == "ref" and n.get("dk") == "local" and follow:
             d = unique_def(fn, n["name"])
             if d is not None:
                 nid = d
                 continue
-        if k == "call" and n.get("inl_ret_var"):
+        if k == "call" and n.get("inl_ret_var") and follow:
             # the value of a virtually inlined helper is what it returns
             d = unique_def(fn, n["inl_ret_var"])
             if d is not None:
